@@ -145,14 +145,17 @@ def run(ctx):
         futs["props"] = pool.submit(R.tlc, "props", "TxBufMC", "TxBuf_props.cfg", None, workers=4, timeout=1500)
     # behaviour export (spec -> code)
     h2 = 4 if quick else 5
-    f_emit2 = pool.submit(R.tlc, "emit2", "TxBufMC", "TxBuf_emit.cfg", {"MaxHist": h2}, workers=W, timeout=3000)
-    f_emit3 = pool.submit(R.tlc, "emit3", "TxBufMC", "TxBuf_emit3.cfg", {"MaxHist": 4 if quick else 5}, tables=tab_cur, workers=W, timeout=3000)
+    emits = []
+    if not ctx.replay:
+      emits.append(("emit2", pool.submit(R.tlc, "emit2", "TxBufMC", "TxBuf_emit.cfg", {"MaxHist": h2}, workers=W, timeout=3000)))
+      emits.append(("emit3", pool.submit(R.tlc, "emit3", "TxBufMC", "TxBuf_emit3.cfg", {"MaxHist": 4 if quick else 5}, tables=tab_cur, workers=W, timeout=3000)))
     sim_hist = 8 if quick else 12
     sim_workers = 4
     sim_num = 150 if quick else 2500        # per worker; every trace prints all successors of its last state
-    f_sim = pool.submit(R.tlc, "sim3", "TxBufMC", "TxBuf_emit3.cfg", {"MaxHist": sim_hist}, tables=tab_sim, workers=sim_workers,
-                        timeout=3000, simulate="num=%d" % sim_num, depth=sim_hist + 1, check_deadlock=False,
-                        extra=["-seed", str(ctx.seed)])
+    if not ctx.replay:
+      emits.append(("sim3", pool.submit(R.tlc, "sim3", "TxBufMC", "TxBuf_emit3.cfg", {"MaxHist": sim_hist}, tables=tab_sim, workers=sim_workers,
+                                        timeout=3000, simulate="num=%d" % sim_num, depth=sim_hist + 1, check_deadlock=False,
+                                        extra=["-seed", str(ctx.seed)])))
 
     res = {k: f.result() for k, f in futs.items()}
     # vacuity of the model: the deviation branch is reachable in the as-is runs (more states than the
@@ -169,7 +172,7 @@ def run(ctx):
     tin = ctx.path("in", "beh.ndjson")
     n_beh = 0
     spec_ops = {}
-    for name, fut in (("emit2", f_emit2), ("emit3", f_emit3), ("sim3", f_sim)):
+    for name, fut in emits:
         r = fut.result()
         rows = ctx.tlc_emitted(r)
         for _, h in rows:
@@ -188,7 +191,7 @@ def run(ctx):
             ctx.sample({"spec_behaviour": {"tbl": rows[len(rows) // 2][0], "ops": [e[:3] for e in rows[len(rows) // 2][1]]}})
         del rows
     for act in ("Initialize", "AddTx", "Buffered", "Rebase", "Rebase(deviating)"):
-        if not spec_ops.get(act):
+        if not spec_ops.get(act) and not ctx.replay:
             raise vlib.Inconclusive("vacuity: spec action %s never taken in the exported behaviours" % act)
     rc, o = f_build.result()
     if ctx.replay:
@@ -212,7 +215,7 @@ def run(ctx):
         outs.append(o_); traces.append(t_)
         jobs.append(("random-%d" % i, "^TestVerifC19Random$", {
             "VERIF_OUT": o_, "VERIF_TRACE": t_, "VERIF_SHARD": str(i), "VERIF_SEED": str(ctx.seed),
-            "VERIF_RANDOM": str(3000 if quick else 40000), "VERIF_TRACE_EVERY": str(6 if quick else 20)}))
+            "VERIF_RANDOM": str(3000 if quick else 20000), "VERIF_TRACE_EVERY": str(6 if quick else 20)}))
     lin_out, lin = ctx.path("go", "conc.out"), ctx.path("go", "lin.ndjson")
     outs.append(lin_out)
     jobs.append(("conc", "^TestVerifC19Conc$", {
